@@ -37,7 +37,7 @@ func (hc *histCase) add(op proto.Op, m opMeta) {
 func (hc *histCase) addStmt(s *proto.Stmt, st model.Style) {
 	if hc.textMode && model.StmtTextOK(s) {
 		q := model.RenderStmt(s, st)
-		hc.add(proto.Op{K: "sql", SQL: q}, opMeta{kind: "stmt", stmt: s, text: q})
+		hc.add(proto.Op{K: "sql", SQL: proto.Text(q)}, opMeta{kind: "stmt", stmt: s, text: q})
 		return
 	}
 	hc.add(proto.Op{K: "stmt", Stmt: s}, opMeta{kind: "stmt", stmt: s})
